@@ -1,0 +1,31 @@
+//go:build verif
+
+package hermes
+
+// Exported wrappers for the verification harness (properties C14, C20). Add-only; nothing here is
+// compiled without the build tag `verif`.
+
+// VerifCommandlineOverride calls commandlineOverride (config.go:150-192) on the given configuration.
+func VerifCommandlineOverride(argValues map[string]string, hconfig *Config) error {
+	return commandlineOverride(argValues, hconfig)
+}
+
+// VerifReadConfig calls readConfig (config.go:82-147) with a file path set that only carries the
+// configuration file and the root path. It returns the effective configuration and the global
+// state readConfig has filled. Parse failures end in log.Fatal exactly as in a real run.
+func VerifReadConfig(session *HermesSession, configPath, rootPath string, argValues map[string]string) (Config, *GlobalVarsMain) {
+	g := NewGlobalVarsMain()
+	g.Session = session
+	hp := HFilePath{config: configPath, rootPath: rootPath}
+	cfg := readConfig(&g, argValues, &hp)
+	return cfg, &g
+}
+
+// VerifFeatureSwitchSpellings returns a copy of the spelling table of the on/off keys.
+func VerifFeatureSwitchSpellings() map[string]bool {
+	out := map[string]bool{}
+	for k, v := range featureSwitchStrToID {
+		out[k] = bool(v)
+	}
+	return out
+}
